@@ -30,6 +30,8 @@ def _canon_outcome(o):
 
 def raised_inside_signac(exc):
     """'file:function' of the innermost frame if the exception was raised inside signac / synced_collections, else None."""
+    if hasattr(exc, "_where_inside_signac"):  # raised in a forked child (engine_t.isolated), judged there
+        return exc._where_inside_signac
     tb = exc.__traceback__
     last = None
     while tb is not None:
